@@ -193,9 +193,9 @@ def inputs(tier, seed):
     rng = random.Random(seed)
     if tier == "quick":
         exhaustive = list(D.plain_inputs(range(1, 4), range(1, 4)))
-        sample = [D.random_plain_input(rng, 4, rng.randint(2, 4)) for _ in range(40)]
+        sample = [D.random_plain_input(rng, 4, rng.randint(2, 4)) for _ in range(150)] + [D.random_plain_input(rng, 5, rng.randint(3, 5)) for _ in range(12)]
         bounds = {"exhaustive": "object leaves 1-3 x species leaves 1-3, every plane shape, every leaf assignment",
-                  "sampled": "40 seeded inputs with 4 object leaves, 2-4 species leaves"}
+                  "sampled": "150 seeded inputs with 4 object leaves, 2-4 species leaves; 12 seeded inputs with 5 object leaves, 3-5 species leaves"}
     else:
         exhaustive = list(D.plain_inputs(range(1, 5), range(1, 5)))
         sample = [D.random_plain_input(rng, 5, rng.randint(2, 6)) for _ in range(200)]
